@@ -3,3 +3,6 @@ import Proofs.Monad
 import Proofs.VerifyAuth
 import Proofs.AuthData
 import Proofs.Cose
+import Proofs.VerifyReg
+import Proofs.Attestation
+import Proofs.Formats
